@@ -1,4 +1,7 @@
 import RSocketModel.Proofs.C12Lemmas
+import RSocketModel.Engine.Signals
+import RSocketModel.Gen.Engine
+import RSocketModel.Gen.Constants
 /-!
 # C12 — Hostile input and failing application code are contained
 
@@ -121,5 +124,60 @@ example : (init 2).closed = false ∧ (init 2).isActive 7 = false ∧ ((init 2).
 
 /-- the model's step function is total: every event in every state has an outcome -/
 theorem c12_total (st : State) (ev : Ev) : ∃ st' outs, step st ev = (st', outs) := ⟨_, _, rfl⟩
+
+end RSocketModel.Engine
+
+namespace RSocketModel.Engine
+
+/-! ### the dispatch structure the model transcribes, tied to the source (regenerated tables) -/
+
+/-- frame type ids as in `rsocket.frame.FrameType` -/
+def tyId : FType → Nat
+  | .setup => Gen.tySetup | .lease => Gen.tyLease | .keepalive => Gen.tyKeepalive
+  | .requestResponse => Gen.tyRequestResponse | .requestFnf => Gen.tyRequestFnf | .requestStream => Gen.tyRequestStream
+  | .requestChannel => Gen.tyRequestChannel | .requestN => Gen.tyRequestN | .cancel => Gen.tyCancel | .payload => Gen.tyPayload
+  | .error => Gen.tyError | .metadataPush => Gen.tyMetadataPush | .resume => Gen.tyResume | .resumeOk => Gen.tyResumeOk
+
+/-- the frame types for which the receiver has a `handle_*` method -/
+def dispatched : FType → Bool
+  | .setup | .lease | .keepalive | .requestResponse | .requestFnf | .requestStream | .requestChannel | .error
+  | .metadataPush | .resume => true
+  | _ => false
+
+def Kind.name : Kind → String
+  | .rrReq => "rrReq" | .rrResp => "rrResp" | .stReq => "stReq" | .stResp => "stResp" | .chReq => "chReq" | .chResp => "chResp"
+/-- `isinstance(stream, Requester)`: `stop_all_streams` hands it a synthetic ERROR frame -/
+def Kind.isRequester : Kind → Bool
+  | .rrReq | .stReq | .chReq => true
+  | _ => false
+/-- `isinstance(stream, Disposable)`: `stop_all_streams` calls `dispose()` -/
+def Kind.isDisposable : Kind → Bool
+  | .rrResp | .stResp | .chReq | .chResp => true
+  | _ => false
+
+/-- **the model's dispatch tables are the code's**: which frame types the receiver dispatches by
+type, which open a stream, which go through the fragment cache, and how `stop_all_streams`
+classifies the six handler classes — each compared with the table regenerated from the source -/
+theorem c12_dispatch_tables_match_source :
+    (∀ ty : FType, dispatched ty = (Gen.receiverDispatch.map (·.1)).contains (tyId ty)) ∧
+    (∀ ty : FType, isInitiate ty = Gen.initiateRequestTypes.contains (tyId ty)) ∧
+    (∀ ty : FType, isFragmentable ty = Gen.fragmentableTypes.contains (tyId ty)) ∧
+    (∀ k : Kind, (k.name, k.isRequester, k.isDisposable) ∈ Gen.handlerKinds) ∧ Gen.handlerKinds.length = 6 := by
+  refine ⟨?_, ?_, ?_, ?_, by decide⟩ <;> intro x <;> cases x <;> decide
+
+/-- a stream-0 frame of a type without a `handle_*` method does nothing -/
+theorem c12_undispatched_is_noop (st : State) (f : Frame) (b : Behaviour) (h : dispatched f.ty = false) :
+    handleByType st f b = (st, []) := by
+  unfold handleByType
+  cases hty : f.ty <;> simp [hty, dispatched] at h ⊢
+
+/-- `stop_all_streams` addresses the subscriber / awaitable only of `Requester` classes and the
+producer only of `Disposable` classes -/
+theorem c12_stop_respects_classes (s : Stream) (oid : Nat) (x : Out) (hx : x ∈ stopOuts (some s) oid) :
+    (x.isSignal = true → s.kind.isRequester = true) ∧
+    ((x = .pubCancel oid ∨ x = .hfCancel oid) → s.kind.isDisposable = true) := by
+  unfold stopOuts at hx
+  cases hk : s.kind <;> simp only [hk] at hx <;> (repeat' split at hx) <;>
+    simp_all [Out.isSignal, Kind.isRequester, Kind.isDisposable]
 
 end RSocketModel.Engine
